@@ -43,9 +43,10 @@ def to_coq(o):
     if isinstance(o, tuple):
         return "(VTuple [" + "; ".join(to_coq(x) for x in o) + "])"
     if isinstance(o, lmfit.Parameter):
+        extra = (o.brute_step, o.stderr, o.correl, o.init_value, o.user_data)
         return ("(VParam " + " ".join(to_coq(x) for x in
                                       [o.value, o.max, o.min, o.vary, o.expr])
-                + " " + hexs(o.name) + ")")
+                + " " + hexs(o.name) + " " + to_coq(extra) + ")")
     if isinstance(o, dict):
         if not all(isinstance(k, str) for k in o):
             raise ValueError("only string keys are modelled")
